@@ -6,11 +6,6 @@ From Sv Require Import PyTime Timer Job.
 Import ListNotations.
 Open Scope Z_scope.
 
-(* ---- rational priorities ------------------------------------------------------------ *)
-Definition prio := (Z * Z)%type.           (* num / den, den > 0 *)
-Definition qle (a b : prio) : bool := fst a * snd b <=? fst b * snd a.
-Definition qpos (a : prio) : bool := 0 <? fst a.
-
 (* scheduler/prioritization.py over exact arithmetic: time_delta = overdue_us / 10^6 *)
 Definition linear_priority (overdue_us : Z) (wnum wden : Z) : prio :=
   if overdue_us <? 0 then (0, 1) else ((overdue_us + SEC) * wnum, wden * SEC).
@@ -18,20 +13,6 @@ Definition constant_priority (overdue_us : Z) (wnum wden : Z) : prio :=
   if overdue_us <? 0 then (0, 1) else (wnum, wden).
 
 Inductive priokind := PLinear | PConst | PTable.
-
-(* ---- stable descending sort (sorted(..., reverse=True)) ------------------------------ *)
-Section Sort.
-  Context {A : Type} (key : A -> prio).
-  (* insert x in front of l: x goes before the first element with a strictly smaller key *)
-  Fixpoint ins_desc (x : A) (l : list A) : list A :=
-    match l with
-    | [] => [x]
-    | y :: t => if qle (key x) (key y) && negb (qle (key y) (key x)) then y :: ins_desc x t
-                else x :: l
-    end.
-  (* elements are inserted from the right so that equal keys keep their original order *)
-  Definition sort_desc (l : list A) : list A := fold_right ins_desc [] l.
-End Sort.
 
 (* ---- tags ------------------------------------------------------------------------------ *)
 Definition subsetb (a b : list Z) : bool := forallb (fun x => zmem x b) a.
